@@ -15,13 +15,19 @@ import Emu8086.Props.C04
 import Emu8086.Props.C05
 import Emu8086.Props.C06
 import Emu8086.Props.C07
+import Emu8086.Lemmas.Mem
 
 namespace Emu8086.Props.ExecAll
 open Emu8086 Emu8086.Spec
 
-/-- machines equal except for the flag bits in `undef` -/
+/-- registers other than FLAGS -/
+def regs13 (m : Machine) := (m.ax, m.bx, m.cx, m.dx, m.sp, m.bp, m.si, m.di, m.ip, m.cs, m.ds, m.ss, m.es)
+
+/-- machines equal except for the flag bits in `undef`: same registers, same content of every memory
+    cell (the overlay representation may differ: the code writes an unchanged operand back), same
+    flags outside `undef` -/
 def EqMask (a b : Machine) (undef : BitVec 16) : Prop :=
-  ({ a with flag := 0#16 } : Machine) = { b with flag := 0#16 } ∧ a.flag &&& ~~~undef = b.flag &&& ~~~undef
+  regs13 a = regs13 b ∧ (∀ x, a.mem.read x = b.mem.read x) ∧ a.flag &&& ~~~undef = b.flag &&& ~~~undef
 
 def RefinesMask (r : Except String (State × Machine × Ctx)) (s : Spec.Res) : Prop :=
   match okOf r, s with
@@ -29,7 +35,7 @@ def RefinesMask (r : Except String (State × Machine × Ctx)) (s : Spec.Res) : P
   | some (st, m, c), .ok (st', m', c', u) => st = st' ∧ c = c' ∧ EqMask m m' u
   | _, _ => False
 
-theorem EqMask.refl (m : Machine) (u : BitVec 16) : EqMask m m u := ⟨rfl, rfl⟩
+theorem EqMask.refl (m : Machine) (u : BitVec 16) : EqMask m m u := ⟨rfl, fun _ => rfl, rfl⟩
 
 theorem refinesMask_of_eq (r : Except String (State × Machine × Ctx)) (s : Spec.Res) (h : okOf r = strip s) :
     RefinesMask r s := by
@@ -69,7 +75,7 @@ theorem wr16_flag (m : Machine) (f : BitVec 16) (p : Place) (v : BitVec 16) :
   | _ => rfl
 
 theorem eqMask_flags (m : Machine) (f1 f2 u : BitVec 16) (h : f1 &&& ~~~u = f2 &&& ~~~u) :
-    EqMask { m with flag := f1 } { m with flag := f2 } u := ⟨rfl, h⟩
+    EqMask { m with flag := f1 } { m with flag := f2 } u := ⟨rfl, fun _ => rfl, h⟩
 
 /-- resolution of operands followed by an action, modulo a mask -/
 theorem bind_refinesMask {α β} (x : Except String α) (y : Except String β) (f : β → α)
@@ -217,5 +223,568 @@ theorem shift16_refines (cur : Nat) (m : Machine) (ctx : Ctx) (f : ShiftOp) (d :
   cases cnt with
   | some n => exact shift16_tail m ctx f pd n
   | none => simp only [Option.getD, getByteReg_eq]; exact shift16_tail m ctx f pd (get8 m .CL)
+
+
+/-! ### MUL / IMUL / DIV / IDIV: function level against the functional reference -/
+def rg (s : AluState) : Regs := ⟨s.flag, s.ax, s.dx⟩
+
+def MdRel {w} (o : Option (AluState × BitVec w)) (v : BitVec w) (r : Option (Regs × BitVec 16)) : Prop :=
+  match o, r with
+  | none, none => True
+  | some (s', v'), some (r, u) => v' = v ∧ s'.ax = r.ax ∧ s'.dx = r.dx ∧ s'.flag &&& ~~~u = r.flag &&& ~~~u
+  | _, _ => False
+
+local macro "md_unfold" : tactic => `(tactic|
+  simp only [MdRel, rg, unary8, unary16, mulDivRef8, mulDivRef16, byteMul, byteImul, byteDiv, byteIdiv, wordMul, wordImul, wordDiv, wordIdiv,
+    getAL, getAH, setAL, setAH, putFlag, setFlag, unsetFlag, getFlag, Flag.mask,
+    Gen.FLAG_OVERFLOW, Gen.FLAG_CARRY, setCO, lo8, hi8, mk16, bit_eq, KF.imul8])
+
+theorem mdRel_ite {w} (c : Bool) (a : AluState × BitVec w) (v : BitVec w) (b : Regs × BitVec 16)
+    (h : MdRel (some a) v (some b)) :
+    MdRel (if c = true then none else some a) v (if c = true then none else some b) := by
+  cases c
+  · simpa using h
+  · simp [MdRel]
+
+local macro "md_unfold'" : tactic => `(tactic|
+  simp only [rg, unary8, unary16, mulDivRef8, mulDivRef16, byteMul, byteImul, byteDiv, byteIdiv, wordMul, wordImul, wordDiv, wordIdiv,
+    getAL, getAH, setAL, setAH, putFlag, setFlag, unsetFlag, getFlag, Flag.mask,
+    Gen.FLAG_OVERFLOW, Gen.FLAG_CARRY, setCO, lo8, hi8, mk16, bit_eq, KF.imul8])
+
+local macro "fin4" : tactic => `(tactic| (refine ⟨?_, ?_, ?_, ?_⟩ <;> first | trivial | rfl | bv_decide))
+
+theorem md8_mul (s : AluState) (v : BitVec 8) : MdRel (unary8 .mul s v) v (mulDivRef8 .mul (rg s) v) := by
+  md_unfold; fin4
+theorem md8_imul (s : AluState) (v : BitVec 8) (h : KF.imul8 s.ax v = false) :
+    MdRel (unary8 .imul s v) v (mulDivRef8 .imul (rg s) v) := by
+  revert h; md_unfold; intro h; refine ⟨?_, ?_, ?_, ?_⟩ <;> first | trivial | rfl | (revert h; bv_decide)
+theorem md16_mul (s : AluState) (v : BitVec 16) : MdRel (unary16 .mul s v) v (mulDivRef16 .mul (rg s) v) := by
+  md_unfold; fin4
+theorem md16_imul (s : AluState) (v : BitVec 16) : MdRel (unary16 .imul s v) v (mulDivRef16 .imul (rg s) v) := by
+  md_unfold; fin4
+
+theorem md8_div (s : AluState) (v : BitVec 8) : MdRel (unary8 .div s v) v (mulDivRef8 .div (rg s) v) := by
+  md_unfold
+  by_cases h0 : v = 0#8
+  · have h0t : (v == 0#8) = true := by simpa using h0
+    simp only [h0t, ↓reduceIte, Bool.true_or, MdRel]
+  · have h0' : (v == 0#8) = false := by simpa using h0
+    simp only [h0', Bool.false_eq_true, ↓reduceIte, Bool.false_or]
+    by_cases hq : s.ax / v.setWidth 16 > 255#16
+    · simp [hq]
+    · simp only [hq, ↓reduceIte, decide_false, Bool.false_eq_true]
+      fin4
+
+theorem md8_idiv (s : AluState) (v : BitVec 8) : MdRel (unary8 .idiv s v) v (mulDivRef8 .idiv (rg s) v) := by
+  md_unfold'
+  by_cases h0 : v = 0#8
+  · have h0t : (v == 0#8) = true := by simpa using h0
+    simp only [h0t, ↓reduceIte, Bool.true_or, MdRel]
+  · have h0' : (v == 0#8) = false := by simpa using h0
+    simp only [h0', Bool.false_eq_true, ↓reduceIte, Bool.false_or]
+    apply mdRel_ite
+    simp only [MdRel]
+    fin4
+
+theorem ref16_div (s : Regs) (v : BitVec 16) : mulDivRef16 .div s v =
+    (if (v == 0#16 || ((s.dx.setWidth 32 <<< 16) ||| s.ax.setWidth 32) / v.setWidth 32 > 65535#32) = true then none
+     else some ({ s with ax := (((s.dx.setWidth 32 <<< 16) ||| s.ax.setWidth 32) / v.setWidth 32).setWidth 16,
+                         dx := (((s.dx.setWidth 32 <<< 16) ||| s.ax.setWidth 32) % v.setWidth 32).setWidth 16 }, 0x08D5#16)) := rfl
+
+theorem ref16_idiv (s : Regs) (v : BitVec 16) : mulDivRef16 .idiv s v =
+    (if (v == 0#16 || ((((s.dx.setWidth 32 <<< 16) ||| s.ax.setWidth 32).signExtend 64).sdiv (v.signExtend 64)).slt (-32768#64)
+          || (32767#64).slt ((((s.dx.setWidth 32 <<< 16) ||| s.ax.setWidth 32).signExtend 64).sdiv (v.signExtend 64))) = true then none
+     else some ({ s with ax := ((((s.dx.setWidth 32 <<< 16) ||| s.ax.setWidth 32).signExtend 64).sdiv (v.signExtend 64)).setWidth 16,
+                         dx := ((((s.dx.setWidth 32 <<< 16) ||| s.ax.setWidth 32).signExtend 64).srem (v.signExtend 64)).setWidth 16 }, 0x08D5#16)) := rfl
+
+theorem md16_div (s : AluState) (v : BitVec 16) : MdRel (unary16 .div s v) v (mulDivRef16 .div (rg s) v) := by
+  rw [ref16_div]
+  show MdRel (wordDiv s v) v _
+  unfold wordDiv
+  by_cases h0 : v = 0#16
+  · have h0t : (v == 0#16) = true := by simpa using h0
+    simp only [h0t, ↓reduceIte, Bool.true_or, MdRel]
+  · have h0' : (v == 0#16) = false := by simpa using h0
+    simp only [h0', Bool.false_eq_true, ↓reduceIte, Bool.false_or, rg]
+    have := mdRel_ite (decide (((s.dx.setWidth 32 <<< 16) ||| s.ax.setWidth 32) / v.setWidth 32 > 65535#32))
+      ({ s with ax := (((s.dx.setWidth 32 <<< 16) ||| s.ax.setWidth 32) / v.setWidth 32).setWidth 16,
+                dx := (((s.dx.setWidth 32 <<< 16) ||| s.ax.setWidth 32) % v.setWidth 32).setWidth 16 }, v) v
+      ({ flag := s.flag, ax := (((s.dx.setWidth 32 <<< 16) ||| s.ax.setWidth 32) / v.setWidth 32).setWidth 16,
+         dx := (((s.dx.setWidth 32 <<< 16) ||| s.ax.setWidth 32) % v.setWidth 32).setWidth 16 }, 0x08D5#16)
+      (by simp only [MdRel]; fin4)
+    simpa using this
+
+theorem md16_idiv (s : AluState) (v : BitVec 16) : MdRel (unary16 .idiv s v) v (mulDivRef16 .idiv (rg s) v) := by
+  rw [ref16_idiv]
+  show MdRel (wordIdiv s v) v _
+  unfold wordIdiv
+  by_cases h0 : v = 0#16
+  · have h0t : (v == 0#16) = true := by simpa using h0
+    simp only [h0t, ↓reduceIte, Bool.true_or, MdRel]
+  · have h0' : (v == 0#16) = false := by simpa using h0
+    simp only [h0', Bool.false_eq_true, ↓reduceIte, Bool.false_or, rg]
+    apply mdRel_ite
+    simp only [MdRel]; fin4
+
+
+/-! ### writing an unchanged value back changes nothing observable -/
+theorem lowSet_same (x : BitVec 16) : lowSet x (x.setWidth 8) = x := by unfold lowSet; bv_decide
+theorem highSet_same (x : BitVec 16) : highSet x ((x >>> 8).setWidth 8) = x := by unfold highSet; bv_decide
+
+theorem set8_get8 (m : Machine) (r : ByteReg) : set8 m r (get8 m r) = m := by
+  cases r <;> simp [set8, get8, lowSet_same, highSet_same]
+
+theorem set16_get16 (m : Machine) (r : WordReg) : set16 m r (get16 m r) = m := by
+  cases r <;> rfl
+
+theorem read_congr (mem : Mem) (y z : Nat) (h : y % MB = z % MB) : mem.read y = mem.read z := by
+  simp [Mem.read, h]
+
+theorem putByte_same_read (m : Machine) (a x : Nat) : (putByte m a (byteAt m a)).mem.read x = m.mem.read x := by
+  simp only [putByte, byteAt, Mem.read_write]
+  split
+  · rename_i h; exact read_congr _ _ _ h
+  · rfl
+
+theorem putWord_same_read (m : Machine) (a x : Nat) : (putWord m a (wordAt m a)).mem.read x = m.mem.read x := by
+  have hlo : (wordAt m a).setWidth 8 = byteAt m a := by simp only [wordAt]; exact lo_of_word _ _
+  have hhi : ((wordAt m a) >>> 8).setWidth 8 = byteAt m ((a + 1) % M20) := by simp only [wordAt]; exact hi_of_word _ _
+  simp only [putWord, hlo, hhi]
+  have h1 : byteAt (putByte m a (byteAt m a)) ((a + 1) % M20) = byteAt m ((a + 1) % M20) := by
+    simp only [byteAt]; exact putByte_same_read m a _
+  rw [← h1, putByte_same_read, putByte_same_read]
+
+
+/-! ### INC / DEC / NEG / MUL / IMUL / DIV / IDIV through `exec` -/
+
+/-- like `bind_refinesMask`, remembering which operand was resolved -/
+theorem bind_refinesMask' {α β} (x : Except String α) (y : Except String β) (f : β → α)
+    (k : α → Except String (State × Machine × Ctx)) (k' : β → Spec.Res)
+    (hx : okOf x = (okOf y).map f) (hk : ∀ p, y = .ok p → RefinesMask (k (f p)) (k' p)) :
+    RefinesMask (x >>= k) (y >>= k') := by
+  cases x <;> cases y <;> simp_all [okOf, bind, Except.bind, RefinesMask]
+
+theorem rd8_flag (m : Machine) (f : BitVec 16) (p : Place) : rd8 { m with flag := f } p = rd8 m p := by
+  cases p with
+  | r8 r => cases r <;> rfl
+  | r16 r => cases r <;> rfl
+  | _ => rfl
+theorem rd16_flag (m : Machine) (f : BitVec 16) (p : Place) : rd16 { m with flag := f } p = rd16 m p := by
+  cases p with
+  | r8 r => cases r <;> rfl
+  | r16 r => cases r <;> rfl
+  | _ => rfl
+
+/-- the write-back step of the unary family: a register only when the value changed, memory always -/
+def writeBack8 (m' : Machine) (pd : Place) (old v : BitVec 8) : Machine :=
+  match pd.toLoc with
+  | .reg8 _ => if v != old then m'.store8 pd.toLoc v else m'
+  | _ => m'.store8 pd.toLoc v
+def writeBack16 (m' : Machine) (pd : Place) (old v : BitVec 16) : Machine :=
+  match pd.toLoc with
+  | .reg16 _ => if v != old then m'.store16 pd.toLoc v else m'
+  | _ => m'.store16 pd.toLoc v
+
+theorem writeBack8_eq (m' : Machine) (pd : Place) (v : BitVec 8) : writeBack8 m' pd (rd8 m' pd) v = wr8 m' pd v := by
+  cases pd with
+  | r8 r =>
+    simp only [writeBack8, Place.toLoc, Machine.store8, setByteReg_eq, wr8, rd8]
+    split
+    · rfl
+    · rename_i h
+      have : v = get8 m' r := by simpa using h
+      rw [this, set8_get8]
+  | _ => simp [writeBack8, Place.toLoc, Machine.store8, wr8, writeByte_eq_putByte]
+theorem writeBack16_eq (m' : Machine) (pd : Place) (v : BitVec 16) : writeBack16 m' pd (rd16 m' pd) v = wr16 m' pd v := by
+  cases pd with
+  | r16 r =>
+    simp only [writeBack16, Place.toLoc, Machine.store16, setWordReg_eq, wr16, rd16]
+    split
+    · rfl
+    · rename_i h
+      have : v = get16 m' r := by simpa using h
+      rw [this, set16_get16]
+  | _ => simp [writeBack16, Place.toLoc, Machine.store16, wr16, writeWord_eq_putWord]
+
+/-- MUL/DIV never change their operand: the write-back (of the value read BEFORE the instruction)
+    leaves every register and memory cell of the updated machine as it is -/
+theorem writeBack8_same (m m' : Machine) (pd : Place) (u : BitVec 16) (hmem : ∀ a, byteAt m' a = byteAt m a) :
+    EqMask (writeBack8 m' pd (rd8 m pd) (rd8 m pd)) m' u := by
+  cases pd with
+  | r8 r => simp only [writeBack8, Place.toLoc, bne_self_eq_false, Bool.false_eq_true, if_false]; exact EqMask.refl _ _
+  | mem a =>
+    refine ⟨rfl, fun x => ?_, rfl⟩
+    simp only [writeBack8, Place.toLoc, Machine.store8, writeByte_eq_putByte, rd8, ← hmem a]
+    exact putByte_same_read m' a x
+  | _ => exact EqMask.refl _ _
+
+theorem writeBack16_same (m m' : Machine) (pd : Place) (u : BitVec 16) (hmem : ∀ a, byteAt m' a = byteAt m a) :
+    EqMask (writeBack16 m' pd (rd16 m pd) (rd16 m pd)) m' u := by
+  cases pd with
+  | r16 r => simp only [writeBack16, Place.toLoc, bne_self_eq_false, Bool.false_eq_true, if_false]; exact EqMask.refl _ _
+  | mem a =>
+    refine ⟨rfl, fun x => ?_, rfl⟩
+    have hw : wordAt m a = wordAt m' a := by simp only [wordAt, hmem]
+    simp only [writeBack16, Place.toLoc, Machine.store16, writeWord_eq_putWord, rd16, hw]
+    exact putWord_same_read m' a x
+  | _ => exact EqMask.refl _ _
+
+
+theorem withAlu_flag (m : Machine) (fl : BitVec 16) : m.withAlu { m.alu with flag := fl } = { m with flag := fl } := rfl
+
+/-- what `exec` does after the ALU function returned `some (s', v')` -/
+theorem exec_unary8_some (cur : Nat) (m : Machine) (ctx : Ctx) (f : UnOp) (pd : Place) (s' : AluState) (v' : BitVec 8)
+    (h : unary8 f m.alu (m.load8 pd.toLoc) = some (s', v')) :
+    (match unary8 f m.alu (m.load8 pd.toLoc) with
+      | none => (.ok (.INT 0#8, m, ctx) : Except String (State × Machine × Ctx))
+      | some (s, v) =>
+        match pd.toLoc with
+        | .reg8 _ => .ok (.NEXT, if v != m.load8 pd.toLoc then (m.withAlu s).store8 pd.toLoc v else m.withAlu s, ctx)
+        | _ => .ok (.NEXT, (m.withAlu s).store8 pd.toLoc v, ctx))
+      = .ok (.NEXT, writeBack8 (m.withAlu s') pd (m.load8 pd.toLoc) v', ctx) := by
+  rw [h]; simp only [writeBack8]; cases pd <;> rfl
+
+theorem unary8_incdecneg (cur : Nat) (m : Machine) (ctx : Ctx) (f : UnOp) (pd : Place) (r : BitVec 8) (fl : BitVec 16)
+    (h : unary8 f m.alu (rd8 m pd) = some ({ m.alu with flag := fl }, r)) :
+    RefinesMask
+      (match unary8 f m.alu (m.load8 pd.toLoc) with
+        | none => (.ok (.INT 0#8, m, ctx) : Except String (State × Machine × Ctx))
+        | some (s, v) =>
+          match pd.toLoc with
+          | .reg8 _ => .ok (.NEXT, if v != m.load8 pd.toLoc then (m.withAlu s).store8 pd.toLoc v else m.withAlu s, ctx)
+          | _ => .ok (.NEXT, (m.withAlu s).store8 pd.toLoc v, ctx))
+      (next (wr8 { m with flag := fl } pd r) ctx) := by
+  rw [exec_unary8_some cur m ctx f pd _ _ (by rw [load8_eq]; exact h), withAlu_flag, load8_eq]
+  have := writeBack8_eq { m with flag := fl } pd r
+  rw [rd8_flag] at this
+  rw [this]
+  exact ⟨rfl, rfl, EqMask.refl _ _⟩
+
+theorem unary8_muldiv (cur : Nat) (m : Machine) (ctx : Ctx) (f : UnOp) (pd : Place)
+    (h : MdRel (unary8 f m.alu (rd8 m pd)) (rd8 m pd) (mulDivRef8 f (regsOf m) (rd8 m pd))) :
+    RefinesMask
+      (match unary8 f m.alu (m.load8 pd.toLoc) with
+        | none => (.ok (.INT 0#8, m, ctx) : Except String (State × Machine × Ctx))
+        | some (s, v) =>
+          match pd.toLoc with
+          | .reg8 _ => .ok (.NEXT, if v != m.load8 pd.toLoc then (m.withAlu s).store8 pd.toLoc v else m.withAlu s, ctx)
+          | _ => .ok (.NEXT, (m.withAlu s).store8 pd.toLoc v, ctx))
+      (match mulDivRef8 f (regsOf m) (rd8 m pd) with
+        | none => .ok (.INT 0#8, m, ctx, 0#16)
+        | some (r, undef) => next (withRegs m r) ctx undef) := by
+  unfold MdRel at h
+  cases hm : unary8 f m.alu (rd8 m pd) with
+  | none =>
+    cases hr : mulDivRef8 f (regsOf m) (rd8 m pd) with
+    | none =>
+      have : unary8 f m.alu (m.load8 pd.toLoc) = none := by rw [load8_eq]; exact hm
+      rw [this]; exact ⟨rfl, rfl, EqMask.refl _ _⟩
+    | some r => rw [hm, hr] at h; exact h.elim
+  | some o =>
+    obtain ⟨s', v'⟩ := o
+    cases hr : mulDivRef8 f (regsOf m) (rd8 m pd) with
+    | none => rw [hm, hr] at h; exact h.elim
+    | some ru =>
+      obtain ⟨r, u⟩ := ru
+      rw [hm, hr] at h
+      obtain ⟨hv, hax, hdx, hfl⟩ := h
+      rw [exec_unary8_some cur m ctx f pd s' v' (by rw [load8_eq]; exact hm), load8_eq, hv]
+      have hw := writeBack8_same m (m.withAlu s') pd u (fun a => rfl)
+      refine ⟨rfl, rfl, ?_⟩
+      obtain ⟨h1, h2, h3⟩ := hw
+      refine ⟨?_, ?_, ?_⟩
+      · rw [h1]; simp [regs13, Machine.withAlu, withRegs, hax, hdx]
+      · intro x; rw [h2 x]; rfl
+      · rw [h3]; simpa [Machine.withAlu, withRegs] using hfl
+
+
+open Emu8086.Props.C01 in
+theorem unary8_refines (cur : Nat) (m : Machine) (ctx : Ctx) (f : UnOp) (d : Op8) (hc : ctx.WF) (hd : d.WF = true)
+    (hkf : ∀ p, place8 m ctx d = .ok p →
+      (f = .inc → KF.inc m.flag (rd8 m p) = false) ∧ (f = .neg → KF.neg m.flag (rd8 m p) = false)
+      ∧ (f = .imul → KF.imul8 m.ax (rd8 m p) = false)) :
+    RefinesMask (exec cur m ctx (.unary8 f d)) (execRef cur m ctx (.unary8 f d)) := by
+  simp only [exec, execRef]
+  refine bind_refinesMask' _ _ Place.toLoc _ _ (resolve8_eq m ctx hc d hd) fun pd hp => ?_
+  obtain ⟨hinc, hneg, himul⟩ := hkf pd hp
+  cases f with
+  | dec => exact unary8_incdecneg cur m ctx .dec pd _ _ (byteDec_eq m.alu (rd8 m pd))
+  | inc => exact unary8_incdecneg cur m ctx .inc pd _ _ (byteInc_partial m.alu (rd8 m pd) (hinc rfl))
+  | neg => exact unary8_incdecneg cur m ctx .neg pd _ _ (byteNeg_partial m.alu (rd8 m pd) (hneg rfl))
+  | mul => exact unary8_muldiv cur m ctx .mul pd (md8_mul m.alu (rd8 m pd))
+  | imul => exact unary8_muldiv cur m ctx .imul pd (md8_imul m.alu (rd8 m pd) (himul rfl))
+  | div => exact unary8_muldiv cur m ctx .div pd (md8_div m.alu (rd8 m pd))
+  | idiv => exact unary8_muldiv cur m ctx .idiv pd (md8_idiv m.alu (rd8 m pd))
+
+/-- what `exec` does after the ALU function returned `some (s', v')` -/
+theorem exec_unary16_some (cur : Nat) (m : Machine) (ctx : Ctx) (f : UnOp) (pd : Place) (s' : AluState) (v' : BitVec 16)
+    (h : unary16 f m.alu (m.load16 pd.toLoc) = some (s', v')) :
+    (match unary16 f m.alu (m.load16 pd.toLoc) with
+      | none => (.ok (.INT 0#8, m, ctx) : Except String (State × Machine × Ctx))
+      | some (s, v) =>
+        match pd.toLoc with
+        | .reg16 _ => .ok (.NEXT, if v != m.load16 pd.toLoc then (m.withAlu s).store16 pd.toLoc v else m.withAlu s, ctx)
+        | _ => .ok (.NEXT, (m.withAlu s).store16 pd.toLoc v, ctx))
+      = .ok (.NEXT, writeBack16 (m.withAlu s') pd (m.load16 pd.toLoc) v', ctx) := by
+  rw [h]; simp only [writeBack16]; cases pd <;> rfl
+
+theorem unary16_incdecneg (cur : Nat) (m : Machine) (ctx : Ctx) (f : UnOp) (pd : Place) (r : BitVec 16) (fl : BitVec 16)
+    (h : unary16 f m.alu (rd16 m pd) = some ({ m.alu with flag := fl }, r)) :
+    RefinesMask
+      (match unary16 f m.alu (m.load16 pd.toLoc) with
+        | none => (.ok (.INT 0#8, m, ctx) : Except String (State × Machine × Ctx))
+        | some (s, v) =>
+          match pd.toLoc with
+          | .reg16 _ => .ok (.NEXT, if v != m.load16 pd.toLoc then (m.withAlu s).store16 pd.toLoc v else m.withAlu s, ctx)
+          | _ => .ok (.NEXT, (m.withAlu s).store16 pd.toLoc v, ctx))
+      (next (wr16 { m with flag := fl } pd r) ctx) := by
+  rw [exec_unary16_some cur m ctx f pd _ _ (by rw [load16_eq]; exact h), withAlu_flag, load16_eq]
+  have := writeBack16_eq { m with flag := fl } pd r
+  rw [rd16_flag] at this
+  rw [this]
+  exact ⟨rfl, rfl, EqMask.refl _ _⟩
+
+theorem unary16_muldiv (cur : Nat) (m : Machine) (ctx : Ctx) (f : UnOp) (pd : Place)
+    (h : MdRel (unary16 f m.alu (rd16 m pd)) (rd16 m pd) (mulDivRef16 f (regsOf m) (rd16 m pd))) :
+    RefinesMask
+      (match unary16 f m.alu (m.load16 pd.toLoc) with
+        | none => (.ok (.INT 0#8, m, ctx) : Except String (State × Machine × Ctx))
+        | some (s, v) =>
+          match pd.toLoc with
+          | .reg16 _ => .ok (.NEXT, if v != m.load16 pd.toLoc then (m.withAlu s).store16 pd.toLoc v else m.withAlu s, ctx)
+          | _ => .ok (.NEXT, (m.withAlu s).store16 pd.toLoc v, ctx))
+      (match mulDivRef16 f (regsOf m) (rd16 m pd) with
+        | none => .ok (.INT 0#8, m, ctx, 0#16)
+        | some (r, undef) => next (withRegs m r) ctx undef) := by
+  unfold MdRel at h
+  cases hm : unary16 f m.alu (rd16 m pd) with
+  | none =>
+    cases hr : mulDivRef16 f (regsOf m) (rd16 m pd) with
+    | none =>
+      have : unary16 f m.alu (m.load16 pd.toLoc) = none := by rw [load16_eq]; exact hm
+      rw [this]; exact ⟨rfl, rfl, EqMask.refl _ _⟩
+    | some r => rw [hm, hr] at h; exact h.elim
+  | some o =>
+    obtain ⟨s', v'⟩ := o
+    cases hr : mulDivRef16 f (regsOf m) (rd16 m pd) with
+    | none => rw [hm, hr] at h; exact h.elim
+    | some ru =>
+      obtain ⟨r, u⟩ := ru
+      rw [hm, hr] at h
+      obtain ⟨hv, hax, hdx, hfl⟩ := h
+      rw [exec_unary16_some cur m ctx f pd s' v' (by rw [load16_eq]; exact hm), load16_eq, hv]
+      have hw := writeBack16_same m (m.withAlu s') pd u (fun a => rfl)
+      refine ⟨rfl, rfl, ?_⟩
+      obtain ⟨h1, h2, h3⟩ := hw
+      refine ⟨?_, ?_, ?_⟩
+      · rw [h1]; simp [regs13, Machine.withAlu, withRegs, hax, hdx]
+      · intro x; rw [h2 x]; rfl
+      · rw [h3]; simpa [Machine.withAlu, withRegs] using hfl
+
+
+open Emu8086.Props.C01 in
+theorem unary16_refines (cur : Nat) (m : Machine) (ctx : Ctx) (f : UnOp) (d : Op16) (hc : ctx.WF) (hd : d.WF = true)
+    (hkf : ∀ p, place16 m ctx d = .ok p →
+      (f = .inc → KF.inc m.flag (rd16 m p) = false) ∧ (f = .neg → KF.neg m.flag (rd16 m p) = false)
+      ∧ True) :
+    RefinesMask (exec cur m ctx (.unary16 f d)) (execRef cur m ctx (.unary16 f d)) := by
+  simp only [exec, execRef]
+  refine bind_refinesMask' _ _ Place.toLoc _ _ (resolve16_eq m ctx hc d hd) fun pd hp => ?_
+  obtain ⟨hinc, hneg, _⟩ := hkf pd hp
+  cases f with
+  | dec => exact unary16_incdecneg cur m ctx .dec pd _ _ (wordDec_eq m.alu (rd16 m pd))
+  | inc => exact unary16_incdecneg cur m ctx .inc pd _ _ (wordInc_partial m.alu (rd16 m pd) (hinc rfl))
+  | neg => exact unary16_incdecneg cur m ctx .neg pd _ _ (wordNeg_partial m.alu (rd16 m pd) (hneg rfl))
+  | mul => exact unary16_muldiv cur m ctx .mul pd (md16_mul m.alu (rd16 m pd))
+  | imul => exact unary16_muldiv cur m ctx .imul pd (md16_imul m.alu (rd16 m pd))
+  | div => exact unary16_muldiv cur m ctx .div pd (md16_div m.alu (rd16 m pd))
+  | idiv => exact unary16_muldiv cur m ctx .idiv pd (md16_idiv m.alu (rd16 m pd))
+
+
+/-! ### AAA … CWD -/
+open Emu8086.Props.C03 in
+theorem single_ok (f : SingleOp) (s : AluState) : adjOk (adjOpOf f) (toRegs s) (toRegs (single f s)) = true := by
+  cases f
+  · exact aaa_ok s
+  · exact aad_ok s
+  · exact aam_ok s
+  · exact aas_ok s
+  · exact daa_ok s
+  · exact das_ok s
+  · exact cbw_ok s
+  · exact cwd_ok s
+
+theorem mask_compl (op : AdjOp) : ~~~(statusMask &&& ~~~op.defined) = op.defined ||| ~~~statusMask := by
+  cases op <;> decide
+
+theorem single_refines (cur : Nat) (m : Machine) (ctx : Ctx) (f : SingleOp) :
+    RefinesMask (exec cur m ctx (.single f)) (execRef cur m ctx (.single f)) := by
+  have h := single_ok f m.alu
+  simp only [adjOk, Bool.and_eq_true, beq_iff_eq, C03.toRegs] at h
+  obtain ⟨⟨hax, hdx⟩, hfl⟩ := h
+  simp only [exec, execRef, RefinesMask, okOf_ok, next]
+  refine ⟨trivial, trivial, ?_, fun _ => rfl, ?_⟩
+  · simp only [regs13, Machine.withAlu, withRegs, regsOf, Machine.alu] at hax hdx ⊢
+    rw [hax, hdx]
+  · simp only [Machine.withAlu, withRegs, regsOf, Machine.alu, mask_compl] at hfl ⊢
+    exact hfl
+
+
+/-! ### LEA, control transfers, flags control -/
+theorem lea_refines (cur : Nat) (m : Machine) (ctx : Ctx) (r : WordReg) (s : Op16) (hc : ctx.WF) (hs : s.WF = true)
+    (hkf : ∀ a, s = .mem a → KF.lea m.ds (segVal m a) = false) :
+    RefinesMask (exec cur m ctx (.lea r s)) (execRef cur m ctx (.lea r s)) := by
+  cases s with
+  | reg x => simp [exec, execRef, resolve16, RefinesMask, okOf, bind, Except.bind]
+  | imm x => simp [exec, execRef, resolve16, RefinesMask, okOf, bind, Except.bind]
+  | mem a =>
+    have := C04.lea_partial cur m ctx r a (by simpa [Op16.WF] using hs) (hkf a rfl)
+    rw [this]; simp only [execRef, RefinesMask, okOf_ok, next]
+    exact ⟨trivial, trivial, EqMask.refl _ _⟩
+  | lbl n =>
+    cases hl : ctx.labelMap.lookup n with
+    | none => simp [exec, execRef, resolve16, resolveLabel, labelAddr, hl, RefinesMask, okOf, bind, Except.bind, Except.map]
+    | some l =>
+      obtain ⟨t, off⟩ := l
+      cases t with
+      | CODE => simp [exec, execRef, resolve16, resolveLabel, labelAddr, hl, RefinesMask, okOf, bind, Except.bind, Except.map]
+      | DATA =>
+        have hoff : off < 65536 := hc n ⟨.DATA, off⟩ hl rfl
+        have := C04.lea_label cur m ctx r n off hoff hl
+        rw [this]
+        simp only [execRef, labelAddr, hl, bind, Except.bind, RefinesMask, okOf_ok, next]
+        exact ⟨trivial, trivial, EqMask.refl _ _⟩
+
+theorem call_refines (cur : Nat) (m : Machine) (ctx : Ctx) (n : String) :
+    RefinesMask (exec cur m ctx (.call n)) (execRef cur m ctx (.call n)) := by
+  cases h : ctx.fnMap.lookup n <;> simp [exec, execRef, h, RefinesMask, okOf, EqMask.refl]
+
+theorem ret_refines (cur : Nat) (m : Machine) (ctx : Ctx) :
+    RefinesMask (exec cur m ctx .ret) (execRef cur m ctx .ret) := by
+  rcases List.eq_nil_or_concat ctx.callStack with h | ⟨init, p, h⟩
+  · simp [exec, execRef, h, RefinesMask, okOf]
+  · simp [exec, execRef, h, RefinesMask, okOf, EqMask.refl]
+
+theorem int_refines (cur : Nat) (m : Machine) (ctx : Ctx) (n : BitVec 8) :
+    RefinesMask (exec cur m ctx (.int n)) (execRef cur m ctx (.int n)) := by
+  by_cases h : (n == 3#8 || n == 0x10#8 || n == 0x21#8) = true
+  · simp [exec, execRef, h, RefinesMask, okOf, EqMask.refl]
+  · simp [exec, execRef, h, RefinesMask, okOf]
+
+theorem cmc_flag (fl : BitVec 16) :
+    (if fl &&& Flag.CARRY.mask != 0#16 then fl &&& ~~~ Flag.CARRY.mask else fl ||| Flag.CARRY.mask) = fl ^^^ 0x0001#16 := by
+  by_cases h : (fl &&& Flag.CARRY.mask != 0#16) = true
+  · rw [if_pos h]; simp only [Flag.mask, Gen.FLAG_CARRY] at h ⊢; revert h; bv_decide
+  · rw [if_neg h]; simp only [Flag.mask, Gen.FLAG_CARRY] at h ⊢; revert h; bv_decide
+
+theorem ctl_flag (fl : BitVec 16) :
+    setFlag fl .CARRY = fl ||| 0x0001#16 ∧ unsetFlag fl .CARRY = fl &&& ~~~0x0001#16
+    ∧ setFlag fl .DIRECTION = fl ||| 0x0400#16 ∧ unsetFlag fl .DIRECTION = fl &&& ~~~0x0400#16
+    ∧ setFlag fl .INTERRUPT = fl ||| 0x0200#16 ∧ unsetFlag fl .INTERRUPT = fl &&& ~~~0x0200#16 := by
+  simp only [setFlag, unsetFlag, Flag.mask, Gen.FLAG_CARRY, Gen.FLAG_DIRECTION, Gen.FLAG_INTERRUPT]
+  refine ⟨?_, ?_, ?_, ?_, ?_, ?_⟩ <;> first | trivial | rfl
+
+theorem ctl_refines (cur : Nat) (m : Machine) (ctx : Ctx) (c : CtlOp) :
+    RefinesMask (exec cur m ctx (.ctl c)) (execRef cur m ctx (.ctl c)) := by
+  obtain ⟨h1, h2, h3, h4, h5, h6⟩ := ctl_flag m.flag
+  have h7 := cmc_flag m.flag
+  cases c <;> simp only [exec, execRef, RefinesMask, okOf_ok, next, h1, h2, h3, h4, h5, h6, h7] <;>
+    exact ⟨trivial, trivial, EqMask.refl _ _⟩
+
+
+/-! ### every instruction -/
+
+/-- the state/instruction pairs outside the classes of the open known findings (the same class
+    predicates `Emu8086.KF.*` that the correspondence driver evaluates through `Spec.knownFinding`) -/
+def NoKF (m : Machine) (ctx : Ctx) : Instr → Prop
+  | .unary8 f d => ∀ p, place8 m ctx d = .ok p →
+      (f = .inc → KF.inc m.flag (rd8 m p) = false) ∧ (f = .neg → KF.neg m.flag (rd8 m p) = false)
+      ∧ (f = .imul → KF.imul8 m.ax (rd8 m p) = false)
+  | .unary16 f d => ∀ p, place16 m ctx d = .ok p →
+      (f = .inc → KF.inc m.flag (rd16 m p) = false) ∧ (f = .neg → KF.neg m.flag (rd16 m p) = false) ∧ True
+  | .jcc j _ => j = .jle → KF.jle m.flag = false
+  | .lea _ s => ∀ a, s = .mem a → KF.lea m.ds (segVal m a) = false
+  | _ => True
+
+/-- **Refinement of the whole interpreter model.**  For every instruction with parser-producible
+    operands, every machine state and every assembler-producible context, outside the open findings:
+    `exec` and `execRef` agree on outcome, context and machine (up to undefined flag bits). -/
+theorem exec_refines (cur : Nat) (m : Machine) (ctx : Ctx) (i : Instr) (hc : ctx.WF) (hw : i.WF = true)
+    (hk : NoKF m ctx i) : RefinesMask (exec cur m ctx i) (execRef cur m ctx i) := by
+  cases i with
+  | print => exact ⟨rfl, rfl, EqMask.refl _ _⟩
+  | mov8 d s =>
+    simp only [Instr.WF, Bool.and_eq_true] at hw
+    exact refinesMask_of_eq _ _ (C05.mov8_refines cur m ctx d s hc hw.1 hw.2)
+  | mov16 d s =>
+    simp only [Instr.WF, Bool.and_eq_true] at hw
+    exact refinesMask_of_eq _ _ (C05.mov16_refines cur m ctx d s hc hw.1 hw.2)
+  | lahf => exact refinesMask_of_eq _ _ (C05.lahf_refines cur m ctx)
+  | sahf => exact refinesMask_of_eq _ _ (C05.sahf_refines cur m ctx)
+  | pushf => exact refinesMask_of_eq _ _ (C05.pushf_refines cur m ctx)
+  | popf => exact refinesMask_of_eq _ _ (C05.popf_refines cur m ctx)
+  | xlat => exact refinesMask_of_eq _ _ (C05.xlat_refines cur m ctx)
+  | xchg8 d r => exact refinesMask_of_eq _ _ (C05.xchg8_refines cur m ctx d r hc (by simpa [Instr.WF] using hw))
+  | xchg16 d r => exact refinesMask_of_eq _ _ (C05.xchg16_refines cur m ctx d r hc (by simpa [Instr.WF] using hw))
+  | pop d => exact refinesMask_of_eq _ _ (C05.pop_refines cur m ctx d hc (by simpa [Instr.WF] using hw))
+  | push s => exact refinesMask_of_eq _ _ (C05.push_refines cur m ctx s hc (by simpa [Instr.WF] using hw))
+  | lea r s => exact lea_refines cur m ctx r s hc (by simpa [Instr.WF] using hw) hk
+  | arith8 f d s =>
+    simp only [Instr.WF, Bool.and_eq_true] at hw
+    exact refinesMask_of_eq _ _ (C01.arith8_refines cur m ctx f d s hc hw.1 hw.2)
+  | arith16 f d s =>
+    simp only [Instr.WF, Bool.and_eq_true] at hw
+    exact refinesMask_of_eq _ _ (C01.arith16_refines cur m ctx f d s hc hw.1 hw.2)
+  | unary8 f d => exact unary8_refines cur m ctx f d hc (by simpa [Instr.WF] using hw) hk
+  | unary16 f d => exact unary16_refines cur m ctx f d hc (by simpa [Instr.WF] using hw) hk
+  | single f => exact single_refines cur m ctx f
+  | str p op w => exact refinesMask_of_eq _ _ (C07.str_refines cur m ctx p op w)
+  | not8 d => exact refinesMask_of_eq _ _ (C01.not8_refines cur m ctx d hc (by simpa [Instr.WF] using hw))
+  | not16 d => exact refinesMask_of_eq _ _ (C01.not16_refines cur m ctx d hc (by simpa [Instr.WF] using hw))
+  | logic8 f d s =>
+    simp only [Instr.WF, Bool.and_eq_true] at hw
+    exact logic8_refines cur m ctx f d s hc hw.1 hw.2
+  | logic16 f d s =>
+    simp only [Instr.WF, Bool.and_eq_true] at hw
+    exact logic16_refines cur m ctx f d s hc hw.1 hw.2
+  | shift8 f d c => exact shift8_refines cur m ctx f d c hc (by simpa [Instr.WF] using hw)
+  | shift16 f d c => exact shift16_refines cur m ctx f d c hc (by simpa [Instr.WF] using hw)
+  | call n => exact call_refines cur m ctx n
+  | ret => exact ret_refines cur m ctx
+  | jcc j n => exact refinesMask_of_eq _ _ (C06.jcc_refines cur m ctx j n hk)
+  | int n => exact int_refines cur m ctx n
+  | ctl c => exact ctl_refines cur m ctx c
+
+/-- the driver's classification (`Spec.knownFinding`, evaluated on every correspondence case) is the
+    same partition: where it answers "-" the refinement theorem applies -/
+theorem noKF_of_knownFinding (m : Machine) (ctx : Ctx) (i : Instr) (h : Spec.knownFinding m ctx i = "-") : NoKF m ctx i := by
+  have ne1 : ("KF-INC-CF" : String) ≠ "-" := by decide
+  have ne2 : ("KF-NEG0-SF" : String) ≠ "-" := by decide
+  have ne3 : ("KF-IMUL8-FLAGS" : String) ≠ "-" := by decide
+  have ne4 : ("KF-JLE" : String) ≠ "-" := by decide
+  have ne5 : ("KF-LEA-SEG" : String) ≠ "-" := by decide
+  cases i with
+  | unary8 f d =>
+    intro p hp
+    cases f <;> simp only [Spec.knownFinding, hp] at h <;>
+      refine ⟨fun e => ?_, fun e => ?_, fun e => ?_⟩ <;> first | (cases e; done) | (split at h <;> simp_all)
+  | unary16 f d =>
+    intro p hp
+    cases f <;> simp only [Spec.knownFinding, hp] at h <;>
+      refine ⟨fun e => ?_, fun e => ?_, trivial⟩ <;> first | (cases e; done) | (split at h <;> simp_all)
+  | jcc j n =>
+    intro e; subst e
+    simp only [Spec.knownFinding] at h
+    split at h <;> simp_all
+  | lea r s =>
+    intro a e; subst e
+    simp only [Spec.knownFinding] at h
+    split at h <;> simp_all
+  | _ => trivial
+
+/-- non-vacuity: the hypotheses are satisfiable by a concrete non-trivial state and instruction -/
+example : NoKF Machine.new {} (.arith16 .add (.reg .AX) (.mem ⟨some .ES, some .BX, some .SI, some 5#16⟩)) := trivial
+example : (Instr.arith16 .add (.reg .AX) (.mem ⟨some .ES, some .BX, some .SI, some 5#16⟩)).WF = true := by decide
+example : (({} : Ctx)).WF := by intro n l h; simp [List.lookup] at h
 
 end Emu8086.Props.ExecAll
